@@ -90,8 +90,8 @@ cfg["C06"] = {
 cfg["C07"] = {
     "title": "Reported deploy capacity equals what an allocation accepts", "design_ref": "DESIGN.md §4 C07",
     "runs": [
-        {"dir": CPUMEM, "quick": P("VerifAlloc", "c=2,numa=0,b=1,r=1000", "c=2,numa=0,b=0,r=500", "c=2,numa=1,b=0,r=500", "c=2,numa=0,b=0,r=3000") + P("VerifTotals", "nodes=2", "nodes=2,b=1"),
-         "thorough": P("VerifAlloc", "c=2,numa=0,b=1,r=1000", "c=2,numa=0,b=0,r=500", "c=2,numa=1,b=0,r=500", "c=2,numa=0,b=0,r=3000", "c=2,numa=0,b=1,r=500,k=2", "c=2,numa=1,b=1,r=1000,k=2", "c=2,numa=0,b=1,r=300,ms=1")
+        {"dir": CPUMEM, "quick": P("VerifAlloc", "c=2,numa=0,b=1,r=1000", "c=2,numa=0,b=0,r=500", "c=2,numa=1,b=0,r=500", "c=2,numa=0,b=0,r=3000", "c=2,numa=0,b=0,r=500,ml=1") + P("VerifTotals", "nodes=2", "nodes=2,b=1"),
+         "thorough": P("VerifAlloc", "c=2,numa=0,b=1,r=1000", "c=2,numa=0,b=0,r=500", "c=2,numa=1,b=0,r=500", "c=2,numa=0,b=0,r=3000", "c=2,numa=0,b=0,r=500,ml=1", "c=2,numa=1,b=0,r=500,ml=1", "c=2,numa=0,b=1,r=500,k=2", "c=2,numa=1,b=1,r=1000,k=2", "c=2,numa=0,b=1,r=300,ms=1")
                      + P("VerifTotals", "nodes=2", "nodes=2,b=1", "nodes=3", "nodes=3,b=1"), "samples": 2},
     ],
     "bounds": "count in [1,3] around the reported capacity (accepted iff count <= capacity, for every count in range); 1-3 nodes for the totals; shapes as C04",
@@ -248,9 +248,9 @@ cfg["C12"] = {
 
 cfg["C14"] = {
     "title": "A crash during deployment is repaired by recovery", "design_ref": "DESIGN.md §4 C14 / §7.2",
-    "runs": [{"dir": CAL, "inline_go": True, "quick": P("VerifCrashRecovery", "crash=24,count=2", "crash=24,count=2,sched=lazy") + ["VerifDecodeProbe"], "thorough": P("VerifCrashRecovery", "crash=24,count=2", "crash=32,count=3", "crash=24,count=2,sched=lazy", "crash=24,count=2,sched=lazy,choices=2") + ["VerifDecodeProbe"], "samples": 6}],
-    "bounds": "CreateWorkload (AUTO, two nodes with 0-2 deployable slots, count 1-2, thorough 3) is stopped at EVERY position between two externally visible steps (store / plugin / engine / log calls, <=24-32 positions, symbolic): from that call on nothing the dying process does reaches the store, the resource records, the engine or the log. Then a new Calcium instance sharing those runs the real WAL handlers (CreateWorkloadHandler, WorkloadResourceAllocatedHandler, ProcessingCreatedHandler) through Recover",
-    "outside": "the bbolt log file itself and process restart (the log is a model with Hydro's replay semantics - those are C16); schedules other than the eager and the lazy cooperative one (thorough: plus 2 symbolic scheduling choices); crashes during recovery; the create-lambda event; the real plugin's repair arithmetic (C15) is replaced by usage := sum of recorded workloads",
+    "runs": [{"dir": CAL, "inline_go": True, "quick": P("VerifCrashRecovery", "crash=24,count=2", "crash=24,count=2,sched=lazy") + P("VerifLambdaRecovery", "occ=4,count=1") + ["VerifDecodeProbe"], "thorough": P("VerifCrashRecovery", "crash=24,count=2", "crash=32,count=3", "crash=24,count=2,sched=lazy", "crash=24,count=2,sched=lazy,choices=2") + P("VerifLambdaRecovery", "occ=4,count=1", "occ=4,count=2", "occ=4,count=1,sched=lazy") + ["VerifDecodeProbe"], "samples": 6}],
+    "bounds": "CreateWorkload (AUTO, two nodes with 0-2 deployable slots, count 1-2, thorough 3) is stopped at EVERY position between two externally visible steps (store / plugin / engine / log calls, <=24-32 positions, symbolic): from that call on nothing the dying process does reaches the store, the resource records, the engine or the log. Then a new Calcium instance sharing those runs the real WAL handlers (CreateWorkloadHandler, WorkloadResourceAllocatedHandler, ProcessingCreatedHandler) through Recover. Run-and-wait deployments (VerifLambdaRecovery): RunAndWait stopped at the n-th call (n<=4) of any store / plugin / engine / log call site, exit code in {0,1,255}; recovery with the CreateLambdaHandler as well must remove every workload whose create-lambda entry was uncommitted (record and container) and leave usage = sum of recorded workloads",
+    "outside": "the bbolt log file itself and process restart (the log is a model with Hydro's replay semantics - those are C16); schedules other than the eager and the lazy cooperative one (thorough: plus 2 symbolic scheduling choices); crashes during recovery; a crash inside the REMOVAL phase of a finished run-and-wait workload (a crash of a removal, not of a deployment); the real plugin's repair arithmetic (C15) is replaced by usage := sum of recorded workloads",
     "assumptions": ledger_assume + ["a crash is modelled by freezing the world: the interrupted operation keeps executing its error paths in memory but no call has any effect any more (equivalent to process death for everything persistent)", "lock leases of the dead process have expired when the new instance starts"],
 }
 
